@@ -437,6 +437,39 @@ impl MinCostFlowSolver {
             start_time_computing_min_cost_flow.elapsed().as_secs_f32()
         );
 
+        #[cfg(rssched_verif)]
+        {
+            use rs_graph::traits::FiniteDigraph;
+            let label = |n: RsNode, left: bool| -> String {
+                let tn = if left {
+                    left_rsnode_to_node[&n]
+                } else {
+                    right_rsnode_to_node[&n]
+                };
+                match tn {
+                    TripNode::ServiceOrMaintenance(x) => format!("{}:{}", if left { "L" } else { "R" }, x),
+                    TripNode::Depot(d) => format!("{}:depot_{}", if left { "L" } else { "R" }, d),
+                }
+            };
+            crate::verif_hooks::mcf_line(format!("MCFTYPE {} spawn={}", vehicle_type, spawning_cost));
+            for (node, count) in maintenance_slots.iter() {
+                crate::verif_hooks::mcf_line(format!("SLOT {} {}", node, count));
+            }
+            for (e, l) in edges.iter() {
+                let (u, v) = (graph.src(*e), graph.snk(*e));
+                let tail_is_left = left_rsnode_to_node.contains_key(&u);
+                crate::verif_hooks::mcf_line(format!(
+                    "EDGE {} {} {} {} {} {}",
+                    label(u, tail_is_left),
+                    label(v, !right_rsnode_to_node.contains_key(&v)),
+                    l.lower_bound,
+                    l.upper_bound,
+                    l.cost,
+                    flow[graph.edge_id(*e)].1
+                ));
+            }
+        }
+
         let time_at_building_schedule = time::Instant::now();
         print!("  3) building schedule");
         io::stdout().flush().unwrap();
@@ -523,6 +556,16 @@ impl MinCostFlowSolver {
                 "\x1b[93mwarning:\x1b[0m Flow uses overflow depot for vehicle type {}.",
                 vehicle_type
             );
+        }
+        #[cfg(rssched_verif)]
+        {
+            for tour in tours.iter() {
+                crate::verif_hooks::mcf_line(format!(
+                    "FTOUR {}",
+                    tour.iter().map(|n| n.to_string()).collect::<Vec<_>>().join(" ")
+                ));
+            }
+            crate::verif_hooks::mcf_line("ENDMCF".to_string());
         }
         tours
     }
